@@ -389,7 +389,8 @@ def _xmodel_worker(job):
                 n += 1
                 a = _outcome(M.best_match, op, tup)
                 b = _outcome(M.src_best_match, op, tup)
-                if a != b and not (a[0] == "int" and b[0] == "int"):
+                # a tie surfaces as the failing uniqueness assertion, whatever its spelling: both count as "fails"
+                if a != b and not (a[0] in ("int", "amb") and b[0] in ("int", "amb")):
                     diffs.append((var, tuple(repr(t) for t in tup), a, b))
     return n, diffs, M.S.steps
 
